@@ -88,7 +88,7 @@ def gen(rng, tier):
         if n >= 2 and rng.random() < 0.35:       # two entries at the same instant: the later one holds
             j = rng.randrange(1, n)
             times[j] = times[j - 1]
-        cases.append({"kind": "loop", "tau": tau, "r": rng.choice([1.0, 2.0, 0.5]), "v_leak": v_leak,
+        cases.append({"kind": "loop", "sched": rng.choice(["list", "list", "array", "tuple"]), "tau": tau, "r": rng.choice([1.0, 2.0, 0.5]), "v_leak": v_leak,
                       "thr": v_leak + rng.choice([0.5, 1.0]), "times": times,
                       "amps": [rng.choice([0.0, 0.3, 0.8, 1.05, 1.5, 2.5]) for _ in range(n)],
                       "dt": rng.choice([1e-3, 2e-3, 5e-3]), "k": rng.choice([2, 3, 5]), "duration": rng.choice([0.05, 0.1])})
@@ -307,8 +307,18 @@ def run_loop(c):
     def sim(dt):
         n = _neuron(L, p, 0.0)
         with quiet():
-            return L.run_event_based_simulation(n, L.StepCurrent(list(c["times"]), list(c["amps"])), dt, c["duration"])
-    a, b = sim(c["dt"]), sim(c["dt"] / c["k"])
+            tm, am = list(c["times"]), list(c["amps"])
+            form = c.get("sched", "list")
+            if form == "array":                 # the schedule given as numpy arrays
+                tm, am = np.array(tm, dtype=float), np.array(am, dtype=float)
+            elif form == "tuple":
+                tm, am = tuple(tm), tuple(am)
+            return L.run_event_based_simulation(n, L.StepCurrent(tm, am), dt, c["duration"])
+    try:
+        a, b = sim(c["dt"]), sim(c["dt"] / c["k"])
+    except Exception as ex:  # noqa: BLE001
+        return Outcome(None, f"run_event_based_simulation raised {type(ex).__name__}: {ex} for a valid schedule given as {c.get('sched', 'list')} "
+                             f"({p}, schedule {c['times']} {c['amps']})", True, ("loop",) + tuple(sorted((k, str(v)) for k, v in c.items())))
     fail = None
     sa = [t for t in a.spikes if t <= c["duration"]]
     sb = [t for t in b.spikes if t <= c["duration"]]
